@@ -18,6 +18,7 @@ import (
 
 	"vharness/corpus"
 	"vharness/fontgen"
+	"vharness/indep"
 )
 
 func init() {
@@ -69,6 +70,12 @@ func observe(seed int64, nInputs, reps int) []map[string]any {
 				for k := 0; k < 4; k++ {
 					gi.Ligatures[fmt.Sprintf("g%d", (g+k+1)%ng)] = fmt.Sprintf("g%d", (g+k+2)%ng)
 				}
+				if ng >= 30 {
+					// several successors leading to the same ligature (f i -> fi, f dotlessi -> fi)
+					for k := 10; k < 16; k++ {
+						gi.Ligatures[fmt.Sprintf("g%d", (g+k)%ng)] = fmt.Sprintf("g%d", (g+2)%ng)
+					}
+				}
 			}
 			m.Glyphs[name] = gi
 			if g < 200 {
@@ -90,6 +97,9 @@ func observe(seed int64, nInputs, reps int) []map[string]any {
 	}
 	multi.WriteString("end\n")
 	inputs := append(corpus.All(1), corpus.Input{Name: "cmap-five-in-one-file", Entry: "readcmap", Data: []byte(multi.String())})
+	if data, err := nestedSeacFont(); err == nil {
+		inputs = append(inputs, corpus.Input{Name: "font-nested-seac", Entry: "type1", Data: data})
+	}
 	for _, in := range inputs {
 		for r := 0; r < min(reps, 6); r++ {
 			res := corpus.Run(in.Entry, bytes.NewReader(in.Data))
@@ -155,4 +165,44 @@ func determCmd(args []string) error {
 	}
 	return emit(map[string]any{"events": events, "groups": len(groups), "failures": []any{},
 		"axes": []string{fmt.Sprintf("%d inputs x %d repetitions x %d processes; %d (call, input) groups", n, reps, procs, len(groups))}})
+}
+
+// nestedSeacFont: composites whose accent is itself a composite (hungarumlaut built
+// from two acutes, used by Ohungarumlaut, ...), so that the order in which a reader
+// resolves composites is observable in the result.
+func nestedSeacFont() ([]byte, error) {
+	num := func(v int64) indep.Tok { return indep.Tok{T: "n", V: v} }
+	cmd := func(c string) indep.Tok { return indep.Tok{T: "c", C: c} }
+	outline := func(sb, w, dx int64) []indep.Tok {
+		return []indep.Tok{num(sb), num(w), cmd("hsbw"), num(20 + dx), num(0), cmd("rmoveto"), num(100), cmd("hlineto"), num(200 + dx), cmd("vlineto"), cmd("closepath"), cmd("endchar")}
+	}
+	seac := func(sb, adx, ady, b, a int64) []indep.Tok {
+		return []indep.Tok{num(sb), num(600), cmd("hsbw"), num(sb), num(adx), num(ady), num(b), num(a), cmd("seac")}
+	}
+	spec := &indep.FontSpec{FontName: "Nested", Toks: map[string][]indep.Tok{}, Subrs: [][]indep.Tok{{cmd("return")}, {cmd("return")}, {cmd("return")}, {cmd("return")}},
+		Info:    []string{"/version (1) readonly def", "/FullName (Nested) readonly def", "/FamilyName (N) readonly def", "/Weight (R) readonly def", "/ItalicAngle 0 def", "/isFixedPitch false def", "/UnderlinePosition -100 def", "/UnderlineThickness 50 def"},
+		Private: []string{"/BlueValues [-10 0 700 710] def"}}
+	addg := func(name string, t []indep.Tok) {
+		spec.Glyphs = append(spec.Glyphs, name)
+		spec.Toks[name] = t
+	}
+	addg(".notdef", []indep.Tok{num(0), num(250), cmd("hsbw"), cmd("endchar")})
+	// StandardEncoding codes: acute 194, hungarumlaut 205, ogonek 206, grave 193, O 79, U 85, o 111, u 117, A 65, a 97
+	addg("acute", outline(10, 300, 0))
+	addg("grave", outline(12, 300, 7))
+	addg("O", outline(30, 700, 1))
+	addg("U", outline(31, 700, 2))
+	addg("o", outline(32, 500, 3))
+	addg("u", outline(33, 500, 4))
+	addg("A", outline(34, 650, 5))
+	addg("a", outline(35, 450, 6))
+	addg("hungarumlaut", seac(10, 120, 0, 194, 194))
+	addg("ogonek", seac(12, 30, -200, 193, 194))
+	addg("Ohungarumlaut", seac(30, 150, 180, 79, 205))
+	addg("Uhungarumlaut", seac(31, 150, 180, 85, 205))
+	addg("ohungarumlaut", seac(32, 100, 0, 111, 205))
+	addg("uhungarumlaut", seac(33, 100, 0, 117, 205))
+	addg("Aogonek", seac(34, 300, 0, 65, 206))
+	addg("aogonek", seac(35, 200, 0, 97, 206))
+	return indep.WriteFont(spec, indep.Layout{Cont: "pfa", LenIV: 4, Names: "RD", Enc: "std"})
 }
